@@ -30,7 +30,7 @@ func init() {
 		Rule: "seeded cases = (body bytes 0..3*4096+1 biased to buffer boundaries; one case in 250 has a body of 32 KiB+1 .. 70 KiB, handed out whole or in pieces of 1000..40000 bytes) x (scripted underlying stream, one in 8 also an io.WriterTo: per-call chunk sizes incl. runs of <=50 zero-length reads, data+EOF or data+error in one call, " +
 			"scripted error before/after any byte - its VALUE drawn from a vocabulary: the harness's sentinel, io.ErrUnexpectedEOF, errors wrapping io.ErrUnexpectedEOF / io.EOF, an error whose text is 'EOF', io.ErrClosedPipe, os.ErrClosed, net.ErrClosed, http.ErrBodyReadAfterClose, io.ErrNoProgress, io.ErrShortBuffer, context.Canceled, and time-outs (context.DeadlineExceeded, os.ErrDeadlineExceeded, a net.Error with Timeout() true bare / wrapped / inside a *net.OpError) and net.Errors that are not time-outs -, optional Close error; or nil Body; or http.NoBody) x (Content-Length: positive with/without header, header \"0\" or another spelling of zero (\"00\", \" 0\", \"000\") with field 0, absent (0, no header), -1) x " +
 			"(method POST, or GET/HEAD/DELETE/OPTIONS/PUT/PATCH/TRACE, lower- or mixed-case, or empty; TransferEncoding nil or [chunked] when no length is declared: the expected answer depends on neither) x " +
-			"(operation sequence of 1..12 ops over HasBody, Read(n) n in {0,1,7,4096,10000}, Close, and W = drain with io.Copy into a plain io.Writer (uses the body's WriteTo if it has one)), followed by a fixed tail: drain to the terminal condition, Close, one read after close, second Close. " +
+			"(operation sequence of 1..12 ops over HasBody, Read(n) n in {0,1,7,4096,10000}, Close, and W = drain with io.Copy into a plain io.Writer (uses the body's WriteTo if it has one)), followed by a fixed tail: drain to the terminal condition, Close, reads after close with an empty buffer, with 7 bytes and with an empty buffer again, second Close. " +
 			"Every operation is executed on the real request and on a byte-queue model written from the statement; each result is compared as it happens; after every HasBody, Read and copy made while the body is open the underlying stream must not have been closed (a close before the caller's Close is not 'closing the body'). " +
 			"HISTORIES over several requests: one draw in 12 is a history (a batch counts requests): 0..3 earlier requests each run to its end (ops, drain, Close) before the next begins - half of them with no length declared on a stream that yields nothing (empty, or failing before the first byte), the others as any single case -, then 2..3 requests (three in four with no length declared on a non-empty stream) whose steps (each operation, then the fixed tail as one step) are interleaved at random on one goroutine; one history in four interleaves all of its requests. Every request has its own stream and is judged against its own byte-queue model exactly as a single case is; a finding the request also raises when run alone is reported as a single-request finding, the others carry /requests-overlapping (another request of the history was under way during the life of the request) or /requests-in-sequence; bytes that are a stretch of another request's body are named read-/copy-bytes-of-another-request. " +
 			"non-trivial = no length declared (the peeking path is taken), non-empty scripted stream, and the sequence has >=1 HasBody followed by >=1 Read(n>0); " +
@@ -42,7 +42,7 @@ func init() {
 			"whatever error value a stream fails with, it is a terminal condition and not a byte: with no length declared HasBody is true exactly when a byte precedes it in what is still undelivered (a time-out is no exception: 'at least one byte can be read' is false when the next read yields no byte), and the reader of the body must get that very value (errors.Is) after the last byte; only io.EOF itself is a clean end",
 			"ContentLength field and Content-Length header are coherent, as net/http produces them (positive field with or without header; header \"0\" - or \"00\", \" 0\", \"000\", which net/http also accepts and keeps verbatim - with field 0: a declared zero length; no header with field 0 or -1)",
 			"the answer of HasBody after Close is not judged (the statement is silent); reads must still fail and the stream must not be closed again",
-			"the value returned by Close is not judged; Read with an empty buffer may return (0,nil) at any time (it can return no stale data)",
+			"the value returned by Close is not judged; while the body is open a Read with an empty buffer may return (0,nil) at any time (io.Reader allows it); on an object on which Close was called it must fail like any other read (the quantifier names buffer size 0 and the statement says reads after close fail); an empty read on an object that HasBody installed after the caller had already closed the body is not judged (Close was never called on that object, and a read that asks for nothing need not consult the stream)",
 			"Close calls the caller makes on the bare stream before any HasBody (nothing of the library in between) are not attributed to the library: the object installed by HasBody must close the stream exactly once more",
 			"a request that came with a body stream and has request.Body == nil after HasBody is a violation (body-dropped): the stream is no longer intact for the caller; for requests that came with a nil Body nothing is read or closed",
 			"io.Copy from the body must deliver exactly the undelivered bytes and return nil for a stream that ends with io.EOF, the scripted error otherwise; after Close it must deliver nothing and must not end cleanly while bytes are undelivered",
@@ -496,6 +496,17 @@ func start(c *Case) *runner {
 		}
 	}
 
+	// the body objects on which Close was called (the bare stream, http.NoBody or an object installed by
+	// HasBody: all comparable values)
+	var closedObjs []io.ReadCloser
+	closedItself := func(b io.ReadCloser) bool {
+		for _, o := range closedObjs {
+			if o == b {
+				return true
+			}
+		}
+		return false
+	}
 	doRead := func(n int) (terminal bool) {
 		if req.Body == nil {
 			cls("read-skipped-nil-body")
@@ -522,6 +533,16 @@ func start(c *Case) *runner {
 				add("read-after-close-returned-data/"+clc+"/"+kind, "Read(%d) after Close returned %d byte(s) %q; trace [%s]", n, k, clip(buf[:k]), trace)
 			case err == nil && n > 0:
 				add("read-after-close-nil-error/"+clc+"/"+kind, "Read(%d) after Close returned (0, nil); trace [%s]", n, trace)
+			case err == nil && !closedItself(req.Body):
+				// the object read from was installed by HasBody AFTER the caller had closed the body:
+				// Close was never called on it, and an empty read that asks its stream for nothing
+				// cannot learn that the stream is closed; only reads that ask for bytes are judged here
+				cls("zero-length-read-on-a-body-installed-after-close-not-judged")
+			case err == nil:
+				// the quantifier names "Read (any buffer size incl. 0)" and the statement says reads
+				// after close FAIL: a read with an empty buffer on a closed body is a read after close
+				// (a caller that probes the body with an empty read takes a closed body for an open one)
+				add("zero-length-read-after-close-nil-error/"+clc+"/"+kind, "Read(0) after Close returned (0, nil): a read after close must fail, whatever the size of its buffer; trace [%s]", trace)
 			case err == io.EOF && (len(rest) > 0 || term != io.EOF):
 				add("read-after-close-clean-eof/"+clc+"/"+kind,
 					"Read(%d) after Close returned io.EOF (a clean end of stream) although %d body byte(s) were never delivered and the stream's terminal condition is %s; trace [%s]",
@@ -711,6 +732,7 @@ func start(c *Case) *runner {
 		}
 		var err error
 		countClose()
+		closedObjs = append(closedObjs, req.Body)
 		pv, stk := mon.Catch(func() { err = req.Body.Close() })
 		closed = true
 		lastHas = nil
@@ -785,7 +807,9 @@ func start(c *Case) *runner {
 		}
 		if !stop && req.Body != nil {
 			doClose()
+			doRead(0) // a read after close fails for any buffer size, the empty one included
 			doRead(7)
+			doRead(0)
 			doClose()
 		}
 	}
